@@ -37,7 +37,7 @@ const (
 	vfsWnA  = iota // write new valid content to a
 	vfsWsA         // rewrite a with identical bytes
 	vfsWiA         // write invalid content to a
-	vfsWeA         // truncate a (create empty if missing)
+	vfsWeA         // a holds no rule set any more: zero bytes, blanks, comments only ... (created like that if missing)
 	vfsRmA         // remove a
 	vfsChA         // chmod a
 	vfsMvAB        // rename a -> b
@@ -48,7 +48,7 @@ const (
 	vfsN
 )
 
-var vfsNames = [vfsN]string{"write-new(a)", "rewrite-same(a)", "write-invalid(a)", "truncate(a)", "remove(a)", "chmod(a)",
+var vfsNames = [vfsN]string{"write-new(a)", "rewrite-same(a)", "write-invalid(a)", "empty(a)", "remove(a)", "chmod(a)",
 	"rename(a->b)", "rename(b->a)", "write-new(b)", "remove(b)", "processor-fails-next"}
 
 var vfsModes = []string{"immediate", "one-mutation-late", "all-at-end", "every-event-twice"}
@@ -67,7 +67,11 @@ type vfsWorld struct {
 	files   map[string]*vfsFile // logical name -> state ("a", "b")
 	version int
 	tag     string
-	inplace bool // watch mode: fixed-size in-place writes (one inotify event, never an intermediate state)
+	inplace bool     // watch mode: fixed-size in-place writes (one inotify event, never an intermediate state)
+	salt    int      // choice of the members of the classes "empty" and "invalid" in this sequence
+	nth     int      // mutations applied in this sequence
+	docs    []string // members written in this sequence
+	st      *vfStats
 }
 
 func (w *vfsWorld) path(l string) string { return filepath.Join(w.dir, l+".yaml") }
@@ -184,6 +188,7 @@ func (w *vfsWorld) apply(sym int) ([]vfsEvent, error) {
 		id := fmt.Sprintf("%s%s#%d", w.tag, l, w.version)
 		return id, vfRuleSetYAML(id)
 	}
+	w.nth++
 	switch sym {
 	case vfsWnA:
 		id, data := newContent("a")
@@ -199,9 +204,17 @@ func (w *vfsWorld) apply(sym int) ([]vfsEvent, error) {
 		return write("a", f.kind, f.content, f.bytes)
 	case vfsWiA:
 		w.version++
-		return write("a", vfInvalid, "", vfInvalidDocs[w.version%len(vfInvalidDocs)])
+		d := vfInvalidDoc(w.salt+w.nth, w.st)
+		w.docs = append(w.docs, "invalid:"+d.Name)
+		return write("a", vfInvalid, "", d.Data)
 	case vfsWeA:
-		return write("a", vfEmpty, "", "")
+		prev := ""
+		if f := get("a"); f.exists && f.kind == vfValid {
+			prev = f.bytes
+		}
+		d := vfEmptyDoc(w.salt+w.nth, prev, w.st)
+		w.docs = append(w.docs, "empty:"+d.Name)
+		return write("a", vfEmpty, "", d.Data)
 	case vfsRmA:
 		return remove("a")
 	case vfsRmB:
@@ -234,6 +247,8 @@ func (w *vfsWorld) reset() {
 	}
 	w.files = map[string]*vfsFile{}
 	w.version = 0
+	w.nth = 0
+	w.docs = nil
 }
 
 // signature of known divergences of this provider
@@ -253,7 +268,7 @@ func vfsNewProvider(dir string, rec *vfRecorder, watch bool) (*Provider, error) 
 func TestC18(t *testing.T) {
 	r := core.Begin("C18", "fault_enumeration")
 	r.Rule("file_system: exhaustive sequences (length <=4 quick / <=5 thorough) over 11 mutations of two files of a real directory " +
-		"(write new/same/invalid/empty, remove, chmod, rename a<->b, processor failure) x 3 event delivery lags (shorter lengths also: every event twice, file present at Start), fed as fsnotify events into " +
+		"(write new/same/invalid/empty - the invalid and the empty contents rotate over doc_members_invalid / doc_members_empty as a function of the sequence -, remove, chmod, rename a<->b, processor failure) x 3 event delivery lags (shorter lengths also: every event twice, file present at Start), fed as fsnotify events into " +
 		"Provider.ruleSetsChanged; plus seeded sequences against the real fsnotify loop (Start, sentinel file for quiescence). Oracle: vfDecide per processed event on the " +
 		"actual file state at processing time, and active rule sets = latest valid content of existing files at the end. Non-trivial: >=2 successful processor calls.")
 	r.Assume("direct mode synthesises the fsnotify events inotify reports for each mutation (Create/Write/Chmod/Remove/Rename+Create); the watch mode uses the real ones",
@@ -263,6 +278,7 @@ func TestC18(t *testing.T) {
 	if !vfsCalibrate(r) {
 		r.End()
 	}
+	vfInitDocs(r)
 	if prov, mode, names, variant, ok := vfReplayCase(r); ok {
 		if seq, known := vfSymbols(names, vfsNames[:]); prov == "file_system" && known {
 			st := &vfStats{}
@@ -416,6 +432,7 @@ func vfsSeqNames(d []int) []string {
 // vfsRunDirect executes one sequence in direct mode.
 func vfsRunDirect(r *core.Run, w *vfsWorld, seq []int, mode, init int, st *vfStats) (int, bool) {
 	w.reset()
+	w.salt, w.st = vfDocSalt(seq, 4*mode+init), st
 	rec := vfNewRecorder()
 	o := vfNewOracle(st)
 	step := 0
@@ -502,7 +519,7 @@ func vfsRunDirect(r *core.Run, w *vfsWorld, seq []int, mode, init int, st *vfSta
 	}
 	truth := map[string]vfState{"a": w.state("a"), "b": w.state("b")}
 	o.final(step+1, truth, rec.snapshot(), &vfStep{Classify: vfsClassify, Generic: vfGenericFS})
-	bad := o.report(r, "file_system", "direct/"+vfsModes[mode], vfsSeqNames(seq), fmt.Sprintf(" init=%d", init))
+	bad := o.report(r, "file_system", "direct/"+vfsModes[mode], vfsSeqNames(seq), fmt.Sprintf(" init=%d docs=%v", init, w.docs))
 	return o.nOK, bad
 }
 
@@ -629,7 +646,7 @@ func vfsStartOverExistingFiles(r *core.Run) {
 }
 
 func vfsRunWatch(r *core.Run, dir string, n int, seq []int, st *vfStats) (int, bool) {
-	w := &vfsWorld{dir: dir, files: map[string]*vfsFile{}, tag: fmt.Sprintf("w%d-", n), inplace: true}
+	w := &vfsWorld{dir: dir, files: map[string]*vfsFile{}, tag: fmt.Sprintf("w%d-", n), inplace: true, salt: vfDocSalt(seq, 0), st: st}
 	rec := vfNewRecorder()
 	o := vfNewOracle(st)
 	var mu sync.Mutex
@@ -749,6 +766,6 @@ func vfsRunWatch(r *core.Run, dir string, n int, seq []int, st *vfStats) (int, b
 		delete(active, s)
 	}
 	o.final(step+1, truth, active, &vfStep{Classify: vfsClassify, Generic: vfGenericFS})
-	o.report(r, "file_system", "watch", vfsSeqNames(seq), "")
+	o.report(r, "file_system", "watch", vfsSeqNames(seq), fmt.Sprintf(" docs=%v", w.docs))
 	return o.nOK, true
 }
